@@ -192,6 +192,8 @@ type encLine struct {
 type streamAcc struct {
 	buf   bytes.Buffer
 	wants [][]byte
+	texts [][]byte
+	toks  []string
 }
 
 var streams [256]streamAcc
@@ -217,8 +219,10 @@ func (r *shortReader) Read(p []byte) (int, error) {
 	return k, nil
 }
 
-func (e *engine) streamCheck(worker int, text, want []byte, flush bool, viol func(string, string, map[string]interface{}) *lib.Violation) {
+func (e *engine) streamCheck(worker int, text, want []byte, toks []string, flush bool, viol func(string, string, map[string]interface{}) *lib.Violation) {
 	a := &streams[worker%256]
+	a.texts = append(a.texts, append([]byte{}, text...))
+	a.toks = append(a.toks, toks...)
 	a.buf.Write(text)
 	a.buf.WriteString([]string{" ", "\n", "\t\r\n", ""}[len(a.wants)%4])
 	if len(a.wants)%4 == 3 {
@@ -230,8 +234,40 @@ func (e *engine) streamCheck(worker int, text, want []byte, flush bool, viol fun
 	}
 	stream := append([]byte{}, a.buf.Bytes()...)
 	wants := a.wants
+	texts, toks := a.texts, a.toks
 	a.buf.Reset()
-	a.wants = nil
+	a.wants, a.texts, a.toks = nil, nil, nil
+	// the same values as ONE array read through the token API (Token / More) with short reads: buffer refills fall on
+	// structural characters, white space and literals alike
+	arr := append([]byte("[ "), bytes.Join(texts, []byte(" ,\n\t"))...)
+	arr = append(arr, " ]\n"...)
+	wantToks := append(append([]string{"delim:["}, toks...), "delim:]")
+	for _, chunk := range []int{1 << 20, 7, 64, 513} {
+		dec := codec.NewDecoder(&shortReader{data: arr, n: chunk})
+		dec.UseNumber()
+		for i := 0; ; i++ {
+			more := dec.More()
+			expectMore := i < len(wantToks) && wantToks[i] != "delim:]" && wantToks[i] != "delim:}"
+			t, err := dec.Token()
+			if err == io.EOF && i == len(wantToks) {
+				break
+			}
+			got := "ERR"
+			if err == nil {
+				got = tokenString(t)
+			}
+			if i >= len(wantToks) || got != wantToks[i] || (more != expectMore && i > 0 && i < len(wantToks)) {
+				w := "<end>"
+				if i < len(wantToks) {
+					w = wantToks[i]
+				}
+				e.rep.Report(viol("tokens", fmt.Sprintf("Decoder.Token/More on an array of %d values (reads of %d bytes): token %d is %q (More=%v), the text has %q (More=%v): %v",
+					len(texts), chunk, i, got, more, w, expectMore, err), map[string]interface{}{"api": "Decoder.Token", "stream": string(arr)}))
+				return
+			}
+		}
+		e.rep.Label("TokenStream")
+	}
 	for _, chunk := range []int{1 << 20, 7, 513} {
 		dec := codec.NewDecoder(&shortReader{data: stream, n: chunk})
 		dec.UseNumber() // number literals are kept (a plain Decoder converts to float64, as encoding/json does)
@@ -254,6 +290,20 @@ func (e *engine) streamCheck(worker int, text, want []byte, flush bool, viol fun
 		}
 		e.rep.Label("StreamDecoded")
 	}
+}
+
+func tokenString(t codec.Token) string {
+	switch x := t.(type) {
+	case codec.Delim:
+		return "delim:" + string(rune(x))
+	case string:
+		return "str:" + x
+	case bool:
+		return fmt.Sprintf("bool:%v", x)
+	case nil:
+		return "null"
+	}
+	return "num:" + fmt.Sprint(t)
 }
 
 func (e *engine) checkEncLine(worker int, raw []byte) error {
@@ -400,7 +450,22 @@ func (e *engine) checkEncLine(worker int, raw []byte) error {
 		e.rep.Report(viol("panic", "codec panicked: "+firstLine(pan), map[string]interface{}{"api": "codec"}))
 		return nil
 	}
-	pan = e.wd.Guard(worker, hang, func() { e.streamCheck(worker, text, toBytes(ln.SortedRaw), false, viol) })
+	var lineToks []string
+	for _, t := range ln.Tokens {
+		switch t.K {
+		case "delim":
+			lineToks = append(lineToks, "delim:"+string(rune(t.C)))
+		case "str":
+			lineToks = append(lineToks, "str:"+cpString(t.Cp))
+		case "num":
+			lineToks = append(lineToks, "num:"+cpString(t.Cp))
+		case "bool":
+			lineToks = append(lineToks, fmt.Sprintf("bool:%v", t.B))
+		default:
+			lineToks = append(lineToks, "null")
+		}
+	}
+	pan = e.wd.Guard(worker, hang, func() { e.streamCheck(worker, text, toBytes(ln.SortedRaw), lineToks, false, viol) })
 	if pan != "" {
 		e.rep.Report(viol("panic", "Decoder panicked on a stream: "+firstLine(pan), map[string]interface{}{"api": "Decoder"}))
 	}
